@@ -34,6 +34,8 @@ def __i{name}__(self, other):
         if len(other_rows) == 1:
             other = other_rows[0]
             for i in rows: i._i{name}_sparse(other)
+        elif len(other_rows) != len(rows):
+            raise ValueError('shape mismatch between arrays')
         else:
             for i, j in zip(rows, other_rows): i._i{name}_sparse(j)
     elif other.__class__ in SparseVectorSet:
@@ -53,6 +55,7 @@ def __i{name}__(self, other):
             for i in self.rows: i._i{name}_array(other) 
         elif ndim == 2:
             rows = self.rows
+            if len(other) != len(rows): raise ValueError('shape mismatch between arrays')
             for i, j in zip(rows, other): i._i{name}_array(j)
         else:
             raise ValueError('shape mismatch between arrays')
@@ -80,6 +83,8 @@ def __{name}__(self, other):
             new = SparseArray.from_rows(
                 [i._{name}_sparse(other) for i in rows]
             )
+        elif len(rows) != len(other_rows):
+            raise ValueError('shape mismatch between arrays')
         else:
             new = SparseArray.from_rows(
                 [i._{name}_sparse(j) for i, j in zip(rows, other_rows)]
@@ -106,9 +111,15 @@ def __{name}__(self, other):
                 i._{name}_array(other) for i in rows
             ])
         elif ndim == 2:
-            new = SparseArray.from_rows(
-                [i._{name}_array(j) for i, j in zip(rows, other)]
-            )
+            if len(rows) == 1:
+                row = rows[0]
+                new = SparseArray.from_rows([row._{name}_array(j) for j in other])
+            elif len(rows) != len(other):
+                raise ValueError('shape mismatch between arrays')
+            else:
+                new = SparseArray.from_rows(
+                    [i._{name}_array(j) for i, j in zip(rows, other)]
+                )
         else:
             new = self.to_array().__{name}__(other)
     return new
